@@ -302,27 +302,49 @@ func runC05(p *Prog, r *Report, tier string) {
 			if !ok || !lk.Call.IsInvoke() || lk.Call.Method.Name() != "GetInfoElementWithValue" {
 				return
 			}
-			name, ok := constString(lk.Call.Args[0])
-			if !ok {
-				return
+			// the name is a constant here, or a parameter that the callers fill with constants (getXValueByIeName helpers)
+			type cand struct {
+				name string
+				at   ssa.Instruction
+				via  string
 			}
-			ts, known := names[name]
-			if !known {
-				r.Undecided("R-GETTER.name", fmt.Sprintf("%s: %s on element %q", fnKey(f), c.Call.Method.Name(), name), p.instrPos(in), "element name not found in the registry tables")
-				return
-			}
-			n++
-			ok2 := true
-			var tl []string
-			for t := range ts {
-				tl = append(tl, t)
-				if !tb.getterOK(t, c.Call.Method.Name()) {
-					ok2 = false
+			var cands []cand
+			if name, ok := constString(lk.Call.Args[0]); ok {
+				cands = append(cands, cand{name, in, ""})
+			} else if prm, ok := lk.Call.Args[0].(*ssa.Parameter); ok {
+				for idx, fp := range f.Params {
+					if fp != prm {
+						continue
+					}
+					for _, cs := range p.CallGraph().callers[f] {
+						if cc := callOf(cs); cc != nil && idx < len(cc.Args) {
+							if name, ok := constString(cc.Args[idx]); ok {
+								cands = append(cands, cand{name, cs, " (through " + f.Name() + ", called from " + fnKey(cs.Parent()) + ")"})
+							}
+						}
+					}
 				}
 			}
-			sort.Strings(tl)
-			r.Check(ok2, "R-GETTER.name", fmt.Sprintf("%s: %s on element %q", fnKey(f), c.Call.Method.Name(), name), p.instrPos(in), "declared by the element type of "+strings.Join(tl, "/"),
-				fmt.Sprintf("%q has data type %s whose element type does not declare %s: the call panics", name, strings.Join(tl, "/"), c.Call.Method.Name()), true)
+			for _, cd := range cands {
+				name := cd.name
+				ts, known := names[name]
+				if !known {
+					r.Undecided("R-GETTER.name", fmt.Sprintf("%s: %s on element %q%s", fnKey(f), c.Call.Method.Name(), name, cd.via), p.instrPos(cd.at), "element name not found in the registry tables")
+					continue
+				}
+				n++
+				ok2 := true
+				var tl []string
+				for t := range ts {
+					tl = append(tl, t)
+					if !tb.getterOK(t, c.Call.Method.Name()) {
+						ok2 = false
+					}
+				}
+				sort.Strings(tl)
+				r.Check(ok2, "R-GETTER.name", fmt.Sprintf("%s: %s on element %q%s", fnKey(f), c.Call.Method.Name(), name, cd.via), p.instrPos(cd.at), "declared by the element type of "+strings.Join(tl, "/"),
+					fmt.Sprintf("%q has data type %s whose element type does not declare %s: the call panics", name, strings.Join(tl, "/"), c.Call.Method.Name()), true)
+			}
 		})
 	}
 	if n < 10 {
